@@ -678,6 +678,17 @@ func RunRestartedSolo(r sim.Src, mons []*sim.Mon, keepLog bool) *sim.World {
 	return runPastSolo(r, mons, keepLog, false)
 }
 
+// RunRestartedSoloJudged is RunRestartedSolo with the node NOT marked faulty, for monitors that judge a node by what it
+// was handed in this life only (MonC04: every response, commit and view change needs its evidence among the payloads
+// delivered to this instance - its own earlier messages that peers hand back are such deliveries).
+func RunRestartedSoloJudged(r sim.Src, mons []*sim.Mon, keepLog bool) *sim.World {
+	w := runPastSolo(&markSrc{Src: r}, mons, keepLog, false)
+	return w
+}
+
+// markSrc tells runPastSolo (through the type of its source) to leave the node unmarked.
+type markSrc struct{ sim.Src }
+
 func runPastSolo(r sim.Src, mons []*sim.Mon, keepLog bool, flagged bool) *sim.World {
 	n := 1 + pick(r, "N", 5, 5, 5, 45, 10, 10, 20)
 	self := r.Intn("self", n)
@@ -715,7 +726,10 @@ func runPastSolo(r sim.Src, mons []*sim.Mon, keepLog bool, flagged bool) *sim.Wo
 	}
 	nd := s.N
 	if !flagged {
-		nd.Faulty = true // restarted with empty state: faulty by the properties' own terms as far as its statements go
+		if _, judged := r.(*markSrc); !judged {
+			nd.Faulty = true // restarted with empty state: faulty by the properties' own terms as far as its statements go
+		}
+		nd.PastLife = true
 		s.W.Stat("restarted_solo")
 	}
 	for i := r.Intn("ntx", 4); i > 0; i-- {
